@@ -156,9 +156,10 @@ PROPS["C10"] = dict(
 )
 PROPS["C14"] = dict(
     level="other",
-    claim="Every leaf functor callable (52) forwards its argument pack unchanged to view::<own name>; every functional:: object (126) binds the callable/op of its own name with the operand arity of the oracle table; the 73 ufunc aliases bind the op type of the same name; get_function_t<view X> hands back functional::X; the order facts of the functor machinery (R-ORDER: functors of f precede those of g in f*g, a functor's result precedes the operands still curried, leaves are collected left to right, attributes are appended); and the extraction fold ties every chained sub-composition to its operand position (R-EXTRACTPOS; violated on the unchanged tree, known finding F16). Currying splits, associativity at value level and graph node ids are not decided.",
+    claim="Every leaf functor callable (52) forwards its argument pack unchanged to view::<own name>; every functional:: object (126) binds the callable/op of its own name with the operand arity of the oracle table; the 73 ufunc aliases bind the op type of the same name; get_function_t<view X> hands back functional::X; the order facts of the functor machinery (R-ORDER: functors of f precede those of g in f*g, a functor's result precedes the operands still curried, leaves are collected left to right, attributes are appended); and the extraction fold ties every chained sub-composition to its operand position (R-EXTRACTPOS; violated on the unchanged tree, known finding F16). Currying splits, associativity at value level and graph node ids are not decided. (E1 c14b_extract, constant and run-time shapes, symbolic integer elements) for views of depth 1..3 whose nested view is the first operand (unary / binary ufunc, indexing view, reduction, ufunc over indexing, reduction over ufunc, indexing over ufunc, reduction over an explicit broadcast_to, depth 3): the extracted function composition applied to the extracted operands has a value, the view's shape and the view's element at every index.",
     note=E2_NOTE,
     technique=E2_TECH,
+    e1=[dict(tu="c14b_extract.cpp"), dict(tu="c14b_extract_rt.cpp")],
     e2=[dict(rule="R-FWD.functional"), dict(rule="R-GETFN")],
     e3=[dict(group="C14")],
     rule="E2: one instance per functor callable, functor object, op alias and get_function specialisation under include/nmtools/array/functional (core machinery files excluded); distinct by qualified name",
@@ -169,10 +170,10 @@ PROPS["C14"] = dict(
 
 PROPS["C13"] = dict(
     level="proof",
-    claim="Proof, for every launch geometry (thread, block, block size as symbols) and output ranks 1..3, that the shared per-thread body writes nothing when the global id block*block_size+thread is not below the output size or when the result is empty, and - rank 1 - that thread idx stores exactly result[idx] at out[idx] leaving other positions alone; plus the structural rule that the CUDA and HIP kernel entries rebuild the output from the raw triple, re-apply the function and call that same body with ids from the matching vendor builtins. Equality with host evaluation for rank >= 2 (flat-index round trip) and SYCL/OpenCL entries are not decided.",
+    claim="Proof, for every launch geometry (thread, block, block size as symbols) and output ranks 1..3, that the shared per-thread body writes nothing when the global id block*block_size+thread is not below the output size or when the result is empty, and - rank 1 - that thread idx stores exactly result[idx] at out[idx] leaving other positions alone; plus the structural rule that the CUDA and HIP kernel entries rebuild the output from the raw triple, re-apply the function and call that same body with ids from the matching vendor builtins. Equality with host evaluation for rank >= 2 (flat-index round trip) and SYCL/OpenCL entries are not decided. (E1 c14b_extract, constant and run-time shapes, symbolic integer elements) for views of depth 1..3 whose nested view is the first operand (unary / binary ufunc, indexing view, reduction, ufunc over indexing, reduction over ufunc, indexing over ufunc, reduction over an explicit broadcast_to, depth 3): the extracted function composition applied to the extracted operands has a value, the view's shape and the view's element at every index.",
     note=E1_NOTE + " " + E2_NOTE + " CUDA/HIP headers are parsed with declaration stubs (/verif/stubs) for the vendor builtins; host-API parts of those headers do not parse and are ignored.",
     technique=E1_TECH + " + libTooling sibling rule on kernel entry templates",
-    e1=[dict(tu="c13_kernel.cpp")],
+    e1=[dict(tu="c13_kernel.cpp"), dict(tu="c14b_extract.cpp"), dict(tu="c14b_extract_rt.cpp")],
     e2=[dict(rule="R-KSIB"), dict(rule="R-GETFN")],
     rule=E1_RULE + "; E2: one instance per vendor kernel entry template",
     explanation="The guard clause quantifies over all schedules trivially because each thread's effect is a function of its own ids only; the obligation is stated for symbolic ids.",
